@@ -12,7 +12,8 @@ def tet_vol(a, b, c, d):
     return -(m11 - m12 + m13) / 6.0
 
 
-def box_tets(nx, ny, nz, rng=None, jitter=0.0, lengths=(1.0, 1.0, 1.0), patches='sides', warp=0.0):
+def box_tets(nx, ny, nz, rng=None, jitter=0.0, lengths=(1.0, 1.0, 1.0), patches='sides', warp=0.0,
+             grade=(1.0, 1.0, 1.0), shear=0.0):
     """(nx,ny,nz) cells; Kuhn split (6 tets per cube, conforming).  patches: 'sides' (6 ids), 'one' (single id),
     'split' (each side cut into 2 ids at the mid line, 12 ids), 'random' (ids random per side in 1..12)."""
     def vid(i, j, k):
@@ -21,7 +22,11 @@ def box_tets(nx, ny, nz, rng=None, jitter=0.0, lengths=(1.0, 1.0, 1.0), patches=
     for i in range(nx + 1):
         for j in range(ny + 1):
             for k in range(nz + 1):
-                x, y, z = lengths[0] * i / nx, lengths[1] * j / ny, lengths[2] * k / nz
+                # graded spacing (geometric clustering towards 0) gives wall elements of very different size
+                x = lengths[0] * (i / nx) ** grade[0]
+                y = lengths[1] * (j / ny) ** grade[1]
+                z = lengths[2] * (k / nz) ** grade[2]
+                x += shear * z
                 if rng is not None and jitter > 0 and 0 < i < nx and 0 < j < ny and 0 < k < nz:
                     x += jitter * lengths[0] / nx * (rng.random() - 0.5)
                     y += jitter * lengths[1] / ny * (rng.random() - 0.5)
